@@ -29,16 +29,24 @@ var whitelist = []string{
 	"Length.Eval", "Prefix.Eval", "Suffix.Eval", "Regex.Eval",
 }
 
-// translated, but not yet proved equal to the model (Proofs/GenFnProofs.v has no
-// theorem about them): only with -all
+// the set operators (equality theorems in Proofs/GenFnSetProofs.v); part of the default
+// run since the fourth build session (the flag -all is kept and now changes nothing)
 var unproved = []string{
 	"Equal.Eval", "Contains.Eval", "Intersection.Eval", "Union.Eval",
 }
 
+// (D) the expression stack machine (with its callees stack.Push/Pop, the dispatch
+// over Op / UnaryOpFunc / BinaryOpFunc, hence all 17 binary operators); equality theorem in
+// Proofs/GenFnEvalProofs.v
+var stageD = []string{
+	"Expression.Evaluate",
+}
+
 func main() {
 	args := os.Args[1:]
+	whitelist = append(whitelist, unproved...)
+	whitelist = append(whitelist, stageD...)
 	if len(args) > 0 && args[0] == "-all" {
-		whitelist = append(whitelist, unproved...)
 		args = args[1:]
 	}
 	if len(args) != 2 {
@@ -74,7 +82,11 @@ func main() {
 	var b strings.Builder
 	b.WriteString("(* GeneratedFn.v — written by /verif/genfn from the Go source text of <repo>/datalog on every run.\n")
 	b.WriteString("   DO NOT EDIT.  One Definition per translated function, callees first. *)\n")
-	b.WriteString("From BV Require Import Base Term Expr DTerm Symbols GoSem.\n\n")
+	b.WriteString("From BV Require Import Base Term Expr DTerm Symbols GoSem.\n")
+	if tr.needDEval {
+		b.WriteString("From BV Require Import DEval. (* dbindings, dlookup: the representation of map[Variable]*Term *)\n")
+	}
+	b.WriteString("\n")
 	b.WriteString("Definition genfn_whitelist : list (list N) := (* names of the requested functions *)\n  [")
 	for i, k := range whitelist {
 		if i > 0 {
